@@ -974,6 +974,8 @@ def bounded_roundtrip(pid, tier, seed):
     for v in QUOTING_VALUES:
         for tmpl in QUOTING_TEMPLATES:
             one(tmpl.replace(b"%s", v))
+    for _name, data in RFC_CORNERS:       # the example scripts of the RFCs and the grammar corners (defined below)
+        one(data)
     # accepted sequences of the token enumeration (depth 4 quick / 5 thorough), sequentially and with a budget
     t0 = time.time()
     budget = 40 if tier == "quick" else 600
@@ -1127,4 +1129,24 @@ def bounded_rfc_corners(pid, tier, seed):
         else:
             violations.append(("%s.P.corners.%s" % (pid, name), {"script": data.decode("latin-1")}, "rejected: %s" % r.get("error")))
     return {"name": "rfc-grammar-corners", "bound": "%d hand-written valid scripts, one per corner of the grammar" % evals,
+            "rule": "distinct = script", "evaluations": evals, "distinct": evals, "samples": samples, "exhaustive": True, "violations": violations}
+
+
+def bounded_rfc_corner_trees(pid, tier, seed):
+    """C03 on the same hand-written pool: for every corner / RFC example the parser accepts, the tree equals the reference tree"""
+    evals = 0
+    violations = []
+    samples = []
+    for name, data in RFC_CORNERS:
+        v = ref.verdict(data)
+        r = real_parse(data)
+        if v.status != "valid" or r["verdict"] is not True:
+            continue
+        evals += 1
+        d = tree_diff(real_tree(r["result"]), ref_tree(v.tree))
+        if d:
+            violations.append(("%s.P.corners.tree.%s" % (pid, name), {"script": data.decode("latin-1")}, d))
+        elif len(samples) < 3:
+            samples.append({"corner": name, "verdict": "tree equals the reference tree"})
+    return {"name": "rfc-grammar-corners-trees", "bound": "%d hand-written valid scripts (grammar corners, RFC examples)" % evals,
             "rule": "distinct = script", "evaluations": evals, "distinct": evals, "samples": samples, "exhaustive": True, "violations": violations}
